@@ -1,6 +1,7 @@
 import QuantemModel.Core.Proto
 import QuantemModel.Model.Drift
-open Lean QuantemModel QuantemModel.Proto QuantemModel.Registration QuantemModel.Drift
+import QuantemModel.Model.DriftSession
+open Lean QuantemModel QuantemModel.Proto QuantemModel.Registration QuantemModel.Drift QuantemModel.DriftSession
 
 namespace DrvC15
 
@@ -135,17 +136,137 @@ def opAlign (j : Json) : Except String Json := do
     let enc (l : List (Float × Float)) := Json.arr (l.map fun v => Json.arr #[fl v.1, fl v.2]).toArray
     pure (Json.mkObj [("raw", enc raw), ("dxy", enc d)])
 
-def step (st : Unit) (j : Json) : Unit × Json :=
+/-! ### session ops: one `DriftCorrection` object as a state machine (Model/DriftSession.lean) -/
+
+def numArgOf (j : Json) : Except String (NumArg Float) :=
+  match j with
+  | .str "nan" => pure .nan
+  | .str "inf" => pure .inf
+  | .str "badStr" => pure .badStr
+  | .str "none" => pure .none
+  | _ => do pure (.num (← floatOfJson (← field j "num")))
+
+def padArgOf (j : Json) : Except String (PadArg Float) :=
+  match j with
+  | .str "nan" => pure .numNan
+  | .str "other" => pure .other
+  | _ =>
+    match j.getObjVal? "str" with
+    | .ok v => do pure (.str (← v.getStr?))
+    | .error _ =>
+      match j.getObjVal? "list" with
+      | .ok v => do
+          let items ← (← v.getArr?).toList.mapM fun b => do pure (if (← b.getBool?) then PadItem.number else PadItem.other)
+          pure (.list items)
+      | .error _ => do pure (.num (← floatOfJson (← field j "num")))
+
+def regArgOf (j : Json) (k : String) : RegArg :=
+  match j.getObjVal? k with
+  | .ok (.str "bad") => .bad
+  | _ => .good
+
+def pairsOf (j : Json) : Except String (List (Float × Float)) := do
+  (← j.getArr?).toList.mapM fun p => do
+    let a ← p.getArr?
+    if a.size != 2 then throw "pair" else pure ((← floatOfJson a[0]!), (← floatOfJson a[1]!))
+
+def errName : Err → String
+  | .valueError => "ValueError" | .typeError => "TypeError" | .indexError => "IndexError"
+  | .overflowError => "OverflowError" | .fault => "Fault"
+
+def outcomeJ : Outcome → Json
+  | .ok => Json.str "ok"
+  | .raised e => Json.str (errName e)
+
+def flJ : Option (Fl Float) → Json
+  | none => Json.null
+  | some (.fin x) => fl x
+  | some .nan => Json.str "nan"
+  | some .inf => Json.str "inf"
+
+/-- canvas, knots `(rows, nk, 2)` and — for 1..4 knots — the coordinates `transform_coordinates(knots)` of every image -/
+def dumpSt (s : St Float) : Json :=
+  let g := match s.geom with
+    | none => Json.null
+    | some g => Json.mkObj [("canvas", Json.arr #[natJ g.Hc, natJ g.Wc]),
+        ("imgs", Json.arr (g.imgs.map fun im => Json.mkObj [
+          ("H", natJ im.H), ("W", natJ im.W), ("nk", natJ im.nk),
+          ("knots", Json.arr ((List.range im.H).map fun r => Json.arr ((List.range im.nk).map fun k =>
+              Json.arr #[fl (im.knots r k).1, fl (im.knots r k).2]).toArray).toArray),
+          ("xa", if 1 ≤ im.nk ∧ im.nk ≤ 4 then matToJson fl im.H im.W fun r c => (coordsOf im r c).1 else Json.null),
+          ("ya", if 1 ≤ im.nk ∧ im.nk ≤ 4 then matToJson fl im.H im.W fun r c => (coordsOf im r c).2 else Json.null)]).toArray)]
+  Json.mkObj [("geom", g), ("pad_fraction", flJ s.attrs.padFraction), ("kde_sigma", flJ s.attrs.kdeSigma),
+    ("number_knots", match s.attrs.nk with | none => Json.null | some k => natJ k),
+    ("warped_valid", Json.bool s.warpedValid), ("err_rows", natJ s.errRows)]
+
+/-- the knots of the session are frozen into a table after every op (memoisation only) -/
+def freeze (s : St Float) : St Float :=
+  match s.geom with
+  | none => s
+  | some g =>
+    { s with geom := some { g with imgs := g.imgs.map fun im =>
+        let t := Tab.make im.H (max im.nk 1) (fun r k => im.knots r k)
+        { im with knots := fun r k => t.get r k } } }
+
+instance : Inhabited (Float × Float) := ⟨(0, 0)⟩
+
+def sessionOp (st : Option (St Float)) (op : String) (j : Json) : Except String (Option (St Float) × Json) := do
+  if op == "s_new" then
+    let shapes ← (← arrField j "shapes").toList.mapM fun p => do
+      let a ← natList p
+      match a with
+      | [h, w] => pure (h, w)
+      | _ => throw "shape"
+    let angles ← floatList (← field j "angles")
+    let s : St Float := fromData shapes angles
+    pure (some s, Json.mkObj [("outcome", Json.str "ok"), ("state", dumpSt s)])
+  else
+  let s ← match st with
+    | some s => pure s
+    | none => throw "no session"
+  let (s', o) ← (do
+    if op == "s_set_angles" then
+      pure (step s (.setAngles (← floatList (← field j "angles"))))
+    else if op == "s_preprocess" then
+      pure (step s (.preprocess (← numArgOf (← field j "pad")) (← padArgOf (← field j "pad_value"))
+        (← numArgOf (← field j "sigma")) (← numArgOf (← field j "nk"))))
+    else if op == "s_align_translation" then
+      let mn ← match j.getObjVal? "min_shift" with
+        | .ok .null => pure none
+        | .ok v => do pure (some (← floatOfJson v))
+        | .error _ => pure none
+      pure (step s (.alignTranslation (regArgOf j "up") (regArgOf j "ms") mn (← boolField j "fault") (← pairsOf (← field j "raw"))))
+    else if op == "s_align_affine" then
+      let m : AffineMeas Float := { ind1 := ← natField j "ind1", raw1 := ← pairsOf (← field j "raw1"),
+                                    ind2 := ← natField j "ind2", raw2 := ← pairsOf (← field j "raw2") }
+      pure (step s (.alignAffine (← floatOfJson (← field j "step")) (← intField j "num_tests") (← boolField j "refine")
+        (regArgOf j "up") (regArgOf j "ms") (← boolField j "fault") m))
+    else throw s!"unknown op {op}" : Except String (St Float × Outcome))
+  let s' := freeze s'
+  pure (some s', Json.mkObj [("outcome", outcomeJ o), ("state", dumpSt s')])
+
+/-- candidate drift vectors of `align_affine` (first search and refinement) -/
+def opAffineCandidates (j : Json) : Except String Json := do
+  let h ← natField j "h"
+  let stp ← floatOfJson (← field j "step")
+  let c := affineCandidates h stp
+  pure (Json.mkObj [("cand", Json.arr (c.map fun v => Json.arr #[fl v.1, fl v.2]).toArray),
+    ("units", Json.arr ((affineUnits h).map fun v => Json.arr #[intJ v.1, intJ v.2]).toArray)])
+
+def step (st : Option (St Float)) (j : Json) : Option (St Float) × Json :=
   match (do
     let op ← strField j "op"
-    match op with
-    | "coords" => opCoords j
-    | "splat" => opSplat j
-    | "align" => opAlign j
-    | _ => throw s!"unknown op {op}" : Except String Json) with
-  | .ok r => (st, okJson r)
+    if op.startsWith "s_" then sessionOp st op j else
+    let r ← (match op with
+      | "coords" => opCoords j
+      | "splat" => opSplat j
+      | "align" => opAlign j
+      | "affine_candidates" => opAffineCandidates j
+      | _ => throw s!"unknown op {op}")
+    pure (st, r) : Except String (Option (St Float) × Json)) with
+  | .ok (st', r) => (st', okJson r)
   | .error e => (st, errJson s!"driver:{e}")
 
 end DrvC15
 
-def main : IO Unit := QuantemModel.Proto.run () DrvC15.step
+def main : IO Unit := QuantemModel.Proto.run (none : Option (QuantemModel.DriftSession.St Float)) DrvC15.step
